@@ -10,7 +10,7 @@ import re
 
 from hypothesis import strategies as st
 
-from vlib.core import Sub, req, sut
+from vlib.core import fuzz_variant, Sub, req, sut
 
 PROPERTY = "C03"
 RULE = ("exhaustive: every valid matching on an NxN label grid (N=8 quick / 10 thorough), both orientations, split into 1-3 "
@@ -168,7 +168,7 @@ def check_pipeline(case):
 def subchecks(tier):
     q = tier == "quick"
     from vlib import gen_maps
-    return [
+    subs = [
         Sub("grid-exhaustive", "enum", check_unit, enumerate=enum_grid(8 if q else 10), exhaustive=True,
             describe=f"all valid matchings on a {8 if q else 10}x{8 if q else 10} grid, both orientations", time_budget_s=3000),
         Sub("random-matchings", "hyp", check_unit, strategy=random_matching, examples=10000 if q else 200000, shrink_budget=800,
@@ -176,3 +176,6 @@ def subchecks(tier):
         Sub("pipeline", "hyp", check_pipeline, strategy=lambda: gen_maps.pipeline_case(), examples=320 if q else 8000,
             shrink_budget=120, describe="records of generated end-to-end runs", sample_filter=gen_maps.short_case),
     ]
+    if not q:
+        subs.append(fuzz_variant(next(s for s in subs if s.name == "random-matchings"), 60000))
+    return subs
